@@ -152,7 +152,7 @@ def emit_cif(rows, null="?", nulls=None, extra_cats=None, name="vmon", label_seq
             lseq = str(int(lseq) + 10000) if lseq.lstrip("-").isdigit() else lseq
         vals = {
             "group_PDB": r["rec"], "id": str(r["serial"]), "type_symbol": nv("type_symbol", r["element"]), "label_atom_id": r["name"],
-            "label_alt_id": nv("label_alt_id", r["alt"]), "label_comp_id": r["resname"], "label_asym_id": nv("label_asym_id", lasym),
+            "label_alt_id": nv("label_alt_id", r["alt"]), "label_comp_id": r.get("label_resname", r["resname"]), "label_asym_id": nv("label_asym_id", lasym),
             "label_entity_id": "1", "label_seq_id": lseq, "pdbx_PDB_ins_code": nv("pdbx_PDB_ins_code", r["icode"]),
             "Cartn_x": f"{r['x']:.{decimals}f}", "Cartn_y": f"{r['y']:.{decimals}f}", "Cartn_z": f"{r['z']:.{decimals}f}",
             "occupancy": nv("occupancy", None if r["occ"] is None else (_occ_spelling(r["occ"], len(table)) if occ_spellings else f"{r['occ']:.2f}")),
